@@ -57,7 +57,7 @@ def resets(hists, thorough):
             if to:
                 wait = 130 if any(r["check"] == "timeout" for r in s) else 280
             line = {"ev": "reset", "n": n, "need": need, "minok": minok, "large": large, "ro": ro,
-                    "with": 1, "wait": wait, "s": s}
+                    "with": 1, "wait": wait, "zfast": False, "s": s}
             (slow if to else fast).append(line)
     return fast, slow
 
@@ -77,10 +77,32 @@ def multi_round(rng, hists, count):
         name = rng.choice([k for k in variants(n) if k != "ro"])
         need, minok, large, ro = variants(n)[name]
         pick = [rng.choice(busy if rng.random() < 0.8 else cands) for _ in range(rng.choice([2, 2, 3]))]
-        ex = [{"ev": "reset", "n": n, "need": need, "minok": minok, "large": large, "ro": ro, "with": 1, "wait": 30, "s": pick[0]}]
+        ex = [{"ev": "reset", "n": n, "need": need, "minok": minok, "large": large, "ro": ro, "with": 1, "wait": 30, "zfast": False, "s": pick[0]}]
         ex += [{"ev": "round", "s": s} for s in pick[1:]]
         out.append(ex)
     return out
+
+
+def fast_timer_scripts(repeat):
+    """compaction time-outs on the real code in milliseconds: the topology gets a volume size limit for which the
+    master's compact wait (3 min x factor) overflows to a negative duration, so the timer is due at once while the
+    check wait stays positive (driver: fastLimit). One or two replicas never answer the compaction, the others answer
+    ok; also all-ok and one-error scripts, where the replies race with the timer (layer B: SlowReplies schedules)."""
+    res = []
+    for n in (1, 2, 3):
+        combos = [tuple("timeout" if r == h else "ok" for r in range(n)) for h in range(n)]
+        combos.append(tuple("ok" for _ in range(n)))
+        if n >= 2:
+            combos.append(tuple("err" if r == 0 else "ok" for r in range(n)))
+        if n == 3:
+            combos += [("timeout", "timeout", "ok"), ("ok", "timeout", "timeout"), ("timeout", "err", "ok")]
+        for c in combos:
+            for need in (n, n + 1):
+                s = [{"check": "hi", "compact": o, "commit": "ok", "cleanup": "ok"} for o in c]
+                for _ in range(repeat):
+                    res.append({"ev": "reset", "n": n, "need": need, "minok": False, "large": False, "ro": False,
+                                "with": 1, "wait": 30, "zfast": True, "s": s})
+    return res
 
 
 def hang_scripts():
@@ -88,11 +110,11 @@ def hang_scripts():
     waiting for Vacuum after `wait` seconds and records done=false"""
     ok = {"check": "hi", "compact": "ok", "commit": "ok", "cleanup": "na"}
     res = []
-    res.append({"ev": "reset", "n": 1, "need": 1, "minok": False, "large": False, "ro": False, "with": 1, "wait": 25,
+    res.append({"ev": "reset", "n": 1, "need": 1, "minok": False, "large": False, "ro": False, "with": 1, "wait": 25, "zfast": False,
                 "s": [dict(ok, commit="timeout")]})
-    res.append({"ev": "reset", "n": 2, "need": 2, "minok": False, "large": False, "ro": False, "with": 1, "wait": 25,
+    res.append({"ev": "reset", "n": 2, "need": 2, "minok": False, "large": False, "ro": False, "with": 1, "wait": 25, "zfast": False,
                 "s": [dict(ok), dict(ok, commit="timeout")]})
-    res.append({"ev": "reset", "n": 2, "need": 2, "minok": False, "large": False, "ro": False, "with": 1, "wait": 25,
+    res.append({"ev": "reset", "n": 2, "need": 2, "minok": False, "large": False, "ro": False, "with": 1, "wait": 25, "zfast": False,
                 "s": [{"check": "hi", "compact": "err", "commit": "na", "cleanup": "timeout"},
                       {"check": "hi", "compact": "ok", "commit": "na", "cleanup": "ok"}]})
     return res
@@ -208,6 +230,7 @@ def run(ctx):
                                 "with_timeout": len(slow), "with_timeout_run_on_real_code": len(slow) if ctx.thorough else 0}
         script = os.path.join(ctx.out, "script.ndjson")
         traces = []
+        fast_trace = None
         if ctx.replay:
             traces.append(ctx.drive(binp, ["--script", ctx.replay, "--n", 64], timeout=600, env=denv))
         else:
@@ -223,6 +246,13 @@ def run(ctx):
             ctx.notes["scripts"]["multi_round_random"] = len(multi)
             write_script(script, fast + [line for ex in multi for line in ex])
             traces.append(ctx.drive(binp, ["--script", script, "--n", 6], timeout=600, env=denv))
+            # compaction time-outs in milliseconds (overflowed compact wait), judged by the same layer A
+            fsp = os.path.join(ctx.out, "script-fasttimer.ndjson")
+            ft = fast_timer_scripts(6 if ctx.thorough else 3)
+            ctx.notes["scripts"]["fast_compact_timer"] = len(ft)
+            write_script(fsp, ft)
+            fast_trace = ctx.drive(binp, ["--script", fsp, "--n", 4], timeout=600, env=denv, name="trace-fasttimer")
+            traces.append(fast_trace)
             if slow_fut:
                 traces.append(slow_fut.result())
         for f in futs:
@@ -251,7 +281,9 @@ def run(ctx):
     bconst = dict(b_const({1}, ["normal"], False, hang=True, kfb=set(), rounds=3), Vols={1, 2})
     total = unexplained = 0
     with ThreadPoolExecutor(max_workers=2) as pool:
-        dfuts = [pool.submit(drift, ctx, tp, bconst, "t%d" % k) for k, tp in enumerate(traces)]
+        # the fast-timer executions are the schedules in which a timer may fire although replies are on their way
+        dfuts = [pool.submit(drift, ctx, tp, dict(bconst, SlowReplies=True) if tp == fast_trace else bconst, "t%d" % k)
+                 for k, tp in enumerate(traces)]
         for k, tp in enumerate(traces):
             ctx.judge("VacuumRoundTrace", tp, "trace_base.cfg", tconst,
                       nontrivial=lambda e: any('"op":"compact"' in x for x in e),
@@ -292,7 +324,9 @@ def run(ctx):
                 "read-only), one fresh Topology each, a bystander volume in the same layout; quick tier: the "
                 "combinations without a timeout; thorough: also the timeout combinations (n<=2 all pre-states, n=3 normal "
                 "and at-size-limit) with the real 1 min / 3 min timers, all in parallel, plus three never-answering "
-                "commit/cleanup scripts; plus seeded random executions calling Vacuum 2-3 times on one topology, each round "
+                "commit/cleanup scripts; both tiers: compaction time-outs in milliseconds on the real code (a volume size "
+                "limit for which the master's compact wait overflows to a negative duration: one or two of 1-3 replicas never "
+                "answer the compaction, or all answer and race with the timer); plus seeded random executions calling Vacuum 2-3 times on one topology, each round "
                 "with one of the enumerated combinations; non-trivial = a compaction was started; distinct by hash of the recorded execution")
     ctx.exhaustive = True
     ctx.assumptions += [
